@@ -14,6 +14,9 @@ SEEDS = [
     "6k1/5ppp/8/8/8/8/5PPP/R5K1 w - - 0 1",
     "8/8/8/8/8/5k2/7p/7K w - - 0 1",
     "r1bqkb1r/pppp1ppp/2n2n2/4p2Q/2B1P3/8/PPPP1PPP/RNB1K1NR w KQkq - 4 4",
+    "rnbqkbnr/pppppppp/8/8/4P3/8/PPPP1PPP/RNBQKBNR b KQkq - 0 1",
+    "r3k2r/p1ppqpb1/bn2pnp1/3PN3/1p2P3/2N2Q1p/PPPBBPPP/R3K2R b KQkq - 0 1",
+    "r1bq1rk1/pp2b1pp/n1pp1n2/3P1p2/2P1p3/2N1P2N/PP2BPPP/R1BQ1RK1 b - - 2 10",
 ]
 
 
@@ -138,6 +141,27 @@ def limit_mixes(rng, n):
     return base[:n]
 
 
+def own_clock_mixes(fen):
+    """clock mixes in which only the mover's OWN clock is short: the allowance must come out of it, not out of the opponent's"""
+    me, op = ("w", "b") if fen.split()[1] == "w" else ("b", "w")
+    return [(f"{me}time 300 {me}inc 0 {op}time 600000 {op}inc 20000", 1.0),
+            (f"{op}time 900000 {op}inc 30000 {me}time 40 {me}inc 10", 1.0),
+            (f"{me}time 0 {me}inc 0 {op}time 5000 {op}inc 5000", 1.0)]
+
+
+def time_budget(fen, lim):
+    """seconds the limits allow: movetime, and for clock limits the mover's own remaining time plus its increment"""
+    t = lim.split()
+    kv = {t[i]: int(t[i + 1]) for i in range(0, len(t) - 1, 2) if t[i + 1].isdigit()}
+    me = "w" if fen.split()[1] == "w" else "b"
+    b = []
+    if "movetime" in kv:
+        b.append(kv["movetime"] / 1000.0)
+    if any(k in kv for k in ("wtime", "btime", "winc", "binc")):
+        b.append((kv.get(me + "time", 0) + kv.get(me + "inc", 0)) / 1000.0)
+    return min(b) if b else None
+
+
 def c09_extra(tier, seed, ctx):
     rng = random.Random(seed * 7919 + 1)
     n_pos, n_mix = (4, 9) if tier == "quick" else (len(SEEDS), 25)
@@ -145,10 +169,15 @@ def c09_extra(tier, seed, ctx):
     distinct = set()
     positions = SEEDS[:]
     rng.shuffle(positions)
-    for fen in positions[:n_pos]:
+    # both colours to move
+    chosen = positions[:n_pos]
+    for colour in ("w", "b"):
+        if sum(1 for f in chosen if f.split()[1] == colour) < 2:
+            chosen += [f for f in positions if f.split()[1] == colour and f not in chosen][:2]
+    for fen in chosen:
         eng = Engine(ctx["engine"])
         eng.send(f"position fen {fen}")
-        for lim, allow in limit_mixes(rng, n_mix):
+        for lim, allow in own_clock_mixes(fen) + limit_mixes(rng, n_mix):
             # only the opponent's clock given: the mover's timer is 0 -> immediate answer expected
             idx = len(eng.lines())
             t = time.time()
@@ -166,10 +195,7 @@ def c09_extra(tier, seed, ctx):
             mv = eng.lines()[i][1].split()[1] if len(eng.lines()[i][1].split()) > 1 else ""
             queries.append((fen, "", mv))
             # the time-limited ones must come back within limit + allowance
-            m = re.search(r"movetime (\d+)", lim)
-            budget = None
-            if m:
-                budget = int(m.group(1)) / 1000.0
+            budget = time_budget(fen, lim)
             if budget is not None and dt > budget + 0.6:
                 violations.append(viol("C09", "late-bestmove", f"fen=[{fen}] go {lim}: {dt:.3f}s"))
             time.sleep(0.02)
@@ -545,7 +571,9 @@ INFO_RE = re.compile(r"^info depth (\d+)( seldepth \d+)? nodes \d+( time \d+)?( 
 def c14_extra(tier, seed, ctx):
     violations, samples, queries, evals = [], [], [], 0
     distinct = set()
-    fens = SEEDS[:4] if tier == "quick" else SEEDS
+    # roots with a single legal move (in check / not in check) are part of "all positions with a legal move"
+    forced = ["7k/8/8/8/8/8/5PP1/r5K1 w - - 0 1", "7k/7p/7P/8/8/8/8/K7 b - - 0 1", "rnbqkbnr/ppppp1pp/8/5p1Q/4P3/8/PPPP1PPP/RNB1KBNR b KQkq - 1 2"]
+    fens = (SEEDS[:4] if tier == "quick" else SEEDS) + forced
     depths = [1, 2, 3, 4] if tier == "quick" else [1, 2, 3, 4, 5]
     for fen in fens:
         eng = Engine(ctx["engine"])
